@@ -47,6 +47,7 @@ package ast
 //@   ensures index: result.2 == nil ==> okIdx(tokens, token_index, result.1)
 //@   ensures either: result.2 != nil || result.1 < len(tokens)
 //@   loop 1 invariant 0 <= current_index && current_index < len(tokens) && current_token == tokens[current_index] && token_index < current_index
+//@   loop 1 invariant sig: !ign(current_token.TokenType) [C15]
 
 //@ func parse_replace [C08 C15]
 //@   noframe
@@ -58,6 +59,8 @@ package ast
 //@   ensures either: result.2 != nil || result.1 < len(tokens)
 //@   loop 1 invariant 0 <= current_index && current_index < len(tokens) && current_token == tokens[current_index] && token_index < current_index
 //@   loop 2 invariant 0 <= current_index && current_index < len(tokens) && token_index < current_index && current_token != nil
+//@   loop 1 invariant sig: !ign(current_token.TokenType) [C15]
+//@   loop 2 invariant sig: !ign(current_token.TokenType) [C15]
 
 //@ func parse_set [C08 C15]
 //@   noframe
@@ -86,6 +89,7 @@ package ast
 //@   ensures index: result.2 == nil ==> okIdx(tokens, token_index, result.1)
 //@   ensures either: result.2 != nil || result.1 < len(tokens)
 //@   loop 1 invariant 0 <= current_index && current_index < len(tokens) && token_index < current_index
+//@   loop 1 invariant sig: !ign(tokens[current_index].TokenType) [C15]
 
 //@ func parse_set_matches [C08 C15]
 //@   noframe
@@ -168,6 +172,7 @@ package ast
 //@   ensures index: result.2 == nil ==> okIdx(tokens, token_index, result.1)
 //@   ensures either: result.2 != nil || result.1 < len(tokens)
 //@   loop 1 invariant 0 <= current_index && current_index < len(tokens) && current_token == tokens[current_index] && token_index < current_index
+//@   loop 1 invariant sig: !ign(current_token.TokenType) [C15]
 
 //@ func parse_listable [C08 C15]
 //@   noframe
@@ -250,6 +255,7 @@ package ast
 //@   ensures index: result.2 == nil ==> okIdx(tokens, token_index, result.1)
 //@   ensures either: result.2 != nil || result.1 < len(tokens)
 //@   loop 1 invariant 0 <= current_index && current_index < len(tokens) && current_token == tokens[current_index] && token_index < current_index
+//@   loop 1 invariant sig: !ign(current_token.TokenType) [C15]
 
 //@ func parse_subroutine [C08 C15]
 //@   noframe
@@ -260,6 +266,7 @@ package ast
 //@   ensures index: result.2 == nil ==> okIdx(tokens, token_index, result.1)
 //@   ensures either: result.2 != nil || result.1 < len(tokens)
 //@   loop 1 invariant 0 <= current_index && current_index < len(tokens) && current_token == tokens[current_index] && token_index < current_index
+//@   loop 1 invariant sig: !ign(current_token.TokenType) [C15]
 
 //@ func parse_character_class [C08 C15]
 //@   noframe
@@ -351,6 +358,7 @@ package ast
 //@   sigreads [C15]
 //@   requires tokWf(tokens) && 0 <= index && index < len(tokens)
 //@   ensures index: result.2 == nil ==> index <= result.1 && result.1 < len(tokens)
+//@   ensures sig: result.2 == nil ==> !ign(tokens[result.1].TokenType) [C15]
 //@   loop 1 invariant index <= token_index && token_index < len(tokens)
 
 //@ func parse_process_statement [C08 C15]
